@@ -479,3 +479,26 @@ def install_cexprtk(I):
 def cfg_exc_cexprtk(name):
     """an exception of cexprtk._exceptions (NameShadowException family)"""
     return ExcV(ExtV("cexprtk._exceptions." + name), [Const(name)])
+
+
+def model_attrs(inst, cls):
+    """the model objects of the given kind that an instance holds in its attributes (whatever the attributes are called)"""
+    out = []
+    for v in getattr(inst, "attrs", {}).values():
+        if isinstance(v, PyObjV) and isinstance(v.obj, cls):
+            out.append(v.obj)
+    return out
+
+
+def symbol_table_of(inst):
+    t = model_attrs(inst, SymbolTable)
+    if len(t) != 1:
+        raise AnalysisError("%s holds %d cexprtk symbol tables (expected one)" % (getattr(getattr(inst, "ci", None), "name", inst), len(t)))
+    return t[0]
+
+
+def expression_of(inst):
+    e = model_attrs(inst, Expression)
+    if len(e) > 1:
+        raise AnalysisError("%s holds %d cexprtk expressions" % (getattr(getattr(inst, "ci", None), "name", inst), len(e)))
+    return e[0] if e else None
